@@ -371,19 +371,23 @@ theorem handleSeq_spec (st : PState) (known : Bool) (values delays : List JVal) 
       (∀ v, v ∈ values → InDomain st.d v) → st.d.enabled = true → st.d.writable = false →
       handleSeq Cfg.repaired st known values delays rep = (st, .err .readOnlyPort)) ∧
     (known = true → shapeOk Cfg.repaired values delays rep = true → values.length = delays.length →
-      (∀ v, v ∈ values → InDomain st.d v) → st.d.enabled = true → st.d.writable = true →
+      (∀ v, v ∈ values → InDomain st.d v) → st.d.enabled = true → st.d.writable = true → st.d.hasExpression = true →
+      handleSeq Cfg.repaired st known values delays rep = (st, .err .portWithExpression)) ∧
+    (known = true → shapeOk Cfg.repaired values delays rep = true → values.length = delays.length →
+      (∀ v, v ∈ values → InDomain st.d v) → st.d.enabled = true → st.d.writable = true → st.d.hasExpression = false →
       handleSeq Cfg.repaired st known values delays rep =
         ({ st with pend := passes st.now (delays.map delayMs).sum (values.map (adapt Cfg.repaired st.d))
                             (delays.map delayMs) (delayMs rep) }, .ok)) := by
   have hv := validateAll_spec st.d hwf values hj
-  refine ⟨?_, ?_, ?_, ?_, ?_, ?_, ?_⟩
+  refine ⟨?_, ?_, ?_, ?_, ?_, ?_, ?_, ?_⟩
   · intro hk; simp [handleSeq, hk]
   · intro hk hs; simp [handleSeq, hk, hs]
   · intro hk hs hl; simp [handleSeq, hk, hs, hl]
   · intro hk hs hl hn; simp [handleSeq, hk, hs, hl, hv.2 hn]
   · intro hk hs hl hd he; simp [handleSeq, hk, hs, hl, hv.1.2 hd, he]
   · intro hk hs hl hd he hw; simp [handleSeq, hk, hs, hl, hv.1.2 hd, he, hw]
-  · intro hk hs hl hd he hw; simp [handleSeq, hk, hs, hl, hv.1.2 hd, he, hw]
+  · intro hk hs hl hd he hw hx; simp [handleSeq, hk, hs, hl, hv.1.2 hd, he, hw, hx]
+  · intro hk hs hl hd he hw hx; simp [handleSeq, hk, hs, hl, hv.1.2 hd, he, hw, hx]
 
 theorem mem_onePass (t : Nat) (vs : List JVal) (ds : List Nat) (p : Nat × JVal) (h : p ∈ onePass t vs ds) :
     p.2 ∈ vs := by
@@ -498,13 +502,16 @@ theorem inv_handle (d0 : PortDef) (pre : List JVal) (st : PState) (r : Req) (hwf
               cases hw : st.d.writable with
               | false => rw [hs.2.2.2.2.2.1 rfl hsh hl hd hen hw]; exact h0
               | true =>
-                rw [hs.2.2.2.2.2.2 rfl hsh hl hd hen hw]
-                refine ⟨⟨e, he⟩, ⟨new, hnew, hc⟩, ?_⟩
-                intro p hp1
-                have := mem_passes _ _ _ _ _ _ hp1
-                simp only [List.mem_map] at this
-                obtain ⟨v, hv, hpv⟩ := this
-                exact ⟨v, hj v hv, (hdom v).1 (hd v hv), by rw [← hpv, had]⟩
+                cases hx : st.d.hasExpression with
+                | true => rw [hs.2.2.2.2.2.2.1 rfl hsh hl hd hen hw hx]; exact h0
+                | false =>
+                  rw [hs.2.2.2.2.2.2.2 rfl hsh hl hd hen hw hx]
+                  refine ⟨⟨e, he⟩, ⟨new, hnew, hc⟩, ?_⟩
+                  intro p hp1
+                  have := mem_passes _ _ _ _ _ _ hp1
+                  simp only [List.mem_map] at this
+                  obtain ⟨v, hv, hpv⟩ := this
+                  exact ⟨v, hj v hv, (hdom v).1 (hd v hv), by rw [← hpv, had]⟩
           · rw [hs.2.2.2.1 rfl hsh hl hd]; exact h0
         · rw [hs.2.2.1 rfl hsh hl]; exact h0
   | enable => exact ⟨⟨true, by simp [handle, he]⟩, ⟨new, hnew, hc⟩, hp⟩
